@@ -133,8 +133,9 @@ Fixpoint loop1 (k : nat) (o : Z) : list op :=
   match k with O => [] | S k' => [ORM o; OF o (o + Z.of_nat k)] ++ adj (o + Z.of_nat k) ++ loop1 k' o end.
 Inductive Blk : bool -> Z -> Z -> Z -> list op -> Prop :=
 | B0 wm o cm : Blk wm o 0 cm (adj o ++ [ODM o])
+| B0n wm o cm : Blk wm o 0 cm (adj o)              (* hrevolve's leaf: no trailing discard *)
 | B1 wm o cm : 1 <= cm -> Blk wm o 1 cm (wmop wm o ++ [OF o (o+1)] ++ adj (o+1) ++ tail0 o)
-| Bc1 wm o l : 2 <= l -> Blk wm o l 1 (wmop wm o ++ [OF o (o+l)] ++ adj (o+l) ++ loop1 (Z.to_nat (l-1)) o ++ tail0 o)
+| Bc1 wm o l cm : 2 <= l -> 1 <= cm -> Blk wm o l cm (wmop wm o ++ [OF o (o+l)] ++ adj (o+l) ++ loop1 (Z.to_nat (l-1)) o ++ tail0 o)   (* cm = 1 in revolve; hrevolve also falls back to it *)
 | Bsp wm o l cm j s1 s2 : 2 <= l -> 2 <= cm -> 1 <= j <= l - 1 ->
     Blk true (o+j) (l-j) (cm-1) s1 -> Blk false o (j-1) cm s2 ->
     Blk wm o l cm (wmop wm o ++ [OF o (o+j)] ++ s1 ++ [ORM o] ++ s2).
@@ -496,8 +497,17 @@ Theorem blk_ok : forall wm o l cm ops, Blk wm o l cm ops ->
   exists acts c' x' lastop,
     Runs i prev c ops acts c' lastop /\ execs x acts = Some x' /\ Exit o c x c' x'.
 Proof.
-  induction 1 as [wm o cm | wm o cm Hcm | wm o l Hl | wm o l cm j s1 s2 Hl Hcm Hj Hb1 IH1 Hb2 IH2];
+  induction 1 as [wm o cm | wm o cm | wm o cm Hcm | wm o l cm Hl Hcm1 | wm o l cm j s1 s2 Hl Hcm Hj Hb1 IH1 Hb2 IH2];
     intros i prev c x HE Hprev.
+  2:{ (* l = 0, no trailing discard *)
+    destruct HE as (Ho & _ & Hh & Hn & Hr & Hrr & Hf & Hwd & Hef & Hso & Hss & Hkeys & Hcp & _ & Hex).
+    replace (o + 0 + 1) with (o + 1) in * by lia.
+    rewrite orb_true_r in Hcp. destruct Hcp as [Hnotin Hbud].
+    destruct (adj_runs i prev c o Hn ltac:(lia)) as (c1 & HR1 & Hn1 & Hr1 & Hs1).
+    destruct (adj_exec x o Hf ltac:(lia) Hef) as (x1 & HX1 & Hf1 & Hrr1 & Hwd1 & Hwi1 & Hef1 & Hst1).
+    exists (adj_acts o), c1, x1, (ODFM (o + 1)). split; [exact HR1|split; [exact HX1|]].
+    unfold Exit. rewrite (remove_notin _ _ Hnotin), Hs1. splits; auto; try lia.
+    unfold sameset, keys in *. rewrite Hst1. intros z. apply Hss. intros _ Hl0. lia. }
   - (* l = 0 *)
     destruct HE as (Ho & _ & Hh & Hn & Hr & Hrr & Hf & Hwd & Hef & Hso & Hss & Hkeys & Hcp & _ & Hex).
     replace (o + 0 + 1) with (o + 1) in * by lia.
@@ -533,7 +543,7 @@ Proof.
   - (* cm = 1, l >= 2 *)
     pose proof HE as HE0.
     destruct HE as (Ho & _ & Hh & Hn & Hr & Hrr & Hf & Hwd & Hef & Hso & Hss & Hkeys & Hcp & _ & Hex).
-    destruct (head_ok wm o l l 1 i prev c x HE0 ltac:(lia) ltac:(lia) ltac:(intros E; apply Hprev; [exact E|lia]))
+    destruct (head_ok wm o l l cm i prev c x HE0 ltac:(lia) ltac:(lia) ltac:(intros E; apply Hprev; [exact E|lia]))
       as (c1 & x1 & a & HR1 & HX1 & Hn1 & Hr1 & Hrr1 & Hf1 & Hwd1 & Hwi1 & Hef1 & Hso1 & Hss1 & (e & Hlo1 & He1 & _) & Hk1 & Hbud1 & Hst1).
     set (i1 := (i + length (wmop wm o ++ [OF o (o + l)]))%nat).
     destruct (adj_runs i1 (Some (OF o (o+l))) c1 (o+l) Hn1 ltac:(lia)) as (c2 & HR2 & Hn2 & Hr2 & Hs2).
